@@ -129,6 +129,7 @@ func c03Crash(r *rng, id string) {
 		i := 1 + r.intn(nn-1)
 		crashAt[i] = time.Duration(r.intn(20000)) * time.Millisecond
 	}
+	mon := cl.startMonitor()
 	go cl.joinAll(400 * time.Millisecond)
 	takeover := r.chance(1, 3)
 	var extra []*simNode
@@ -220,8 +221,12 @@ func c03Crash(r *rng, id string) {
 				if (e.kind == "join" || e.kind == "update") && e.at > ref {
 					ref = e.at
 				}
-				if e.kind == "leave" && e.at >= ct {
+				// the subscriber's last word on the member must be a leave; it may predate the crash when
+				// the survivor had already (falsely, under the injected faults) declared the member dead
+				if e.kind == "leave" {
 					leaveSeen = 1
+				} else if e.kind == "join" {
+					leaveSeen = 0
 				}
 			}
 			d, dropped := dropAt[s.name][cname]
@@ -236,6 +241,10 @@ func c03Crash(r *rng, id string) {
 		}
 		s.mu.Unlock()
 	}
+	inv := "enc"
+	if !enc {
+		inv = mon.verdict(cl.nodes)
+	}
 	for _, x := range extra {
 		x.m.Shutdown()
 	}
@@ -244,9 +253,9 @@ func c03Crash(r *rng, id string) {
 	if len(res) > 0 {
 		rs = strings.Join(res, ",")
 	}
-	emit("C03 sim id=%s n=%d indirect=%d tcp=%d enc=%d loss=%d own=%d pushpull=%d crashes=%d probems=%d suspmaxms=%d awaremax=%d horizonms=%d res=%s",
+	emit("C03 sim id=%s n=%d indirect=%d tcp=%d enc=%d loss=%d own=%d pushpull=%d crashes=%d probems=%d suspmaxms=%d awaremax=%d horizonms=%d inv=%s claims=%d res=%s",
 		id, nn, c.indirect, b2i(c.tcpPings), b2i(enc), loss, b2i(ownEvidence), c.pushPull.Milliseconds()/1000, ncrash,
-		c.probeInterval.Milliseconds(), suspMax.Milliseconds(), c.awareMax, horizon.Milliseconds(), rs)
+		c.probeInterval.Milliseconds(), suspMax.Milliseconds(), c.awareMax, horizon.Milliseconds(), inv, mon.total, rs)
 }
 
 func TestC03(t *testing.T) {
